@@ -66,7 +66,38 @@ def dialect_str(t, uk, sep, pad, with_time):
     s = (f + sep + f + sep + '%04d') % (a, b, t.year)
     if with_time:
         s += ' %02d:%02d:%02d' % (t.hour, t.minute, t.second)
+        if t.microsecond:                       # 'dd/mm/yyyy hh:mm:ss.ffffff' carries the instant to the microsecond
+            s += '.%06d' % t.microsecond
     return s
+
+
+WS = [' ', '  ', '\t', ' \n', '\r\n ']
+
+
+def padsep_str(rng, t, uk, with_time):
+    """d<sep>m<sep>yyyy with blanks around the separators ('13 / 01 / 2000', '13 -01- 2000', '13  01  2000'): still a day-month string
+    whose separators are those of the quantifier; dateutil reads it like the tight form (avoided: a blank only in front of the year
+    after two equal tight separators, '01/02/ 2000', which dateutil rejects)"""
+    a, b = (t.day, t.month) if uk else (t.month, t.day)
+    f = '%02d' if rng.random() < 0.5 else '%d'
+    s1, s2 = rng.choice('/- '), rng.choice('/- ')
+    pads = ['', ' ', '  ']
+    while True:
+        l1, r1, l2, r2 = (rng.choice(pads) for _ in range(4))
+        if (l1 or r1 or l2 or r2) and not (r2 and not l2):
+            break
+    s = f % a + l1 + s1 + r1 + f % b + l2 + s2 + r2 + '%04d' % t.year
+    if with_time:
+        s += ' %02d:%02d:%02d' % (t.hour, t.minute, t.second)
+        if t.microsecond:
+            s += '.%06d' % t.microsecond
+    return s
+
+
+def wrap_ws(rng, s):
+    """the same text with white space around it (dateutil ignores it; the dialect code must not be fooled by it)"""
+    k = rng.randrange(3)
+    return (rng.choice(WS) if k != 1 else '') + s + (rng.choice(WS) if k != 0 else '')
 
 
 def name_strs(t, rng=None):
@@ -113,10 +144,23 @@ def spellings(t, rng, full):
     if not full:
         combos = rng.sample(combos, 3)
     for sep, pad in combos:
-        wt = whole and rng.random() < 0.4
+        wt = rng.random() < (0.4 if whole else 0.7)
         exp = t if wt else day
-        out.append(('uk-str', L('str', 'uk', s_(dialect_str(t, True, sep, pad, wt))), exp))
-        out.append(('us-str', L('str', 'us', s_(dialect_str(t, False, sep, pad, wt))), exp))
+        us_ = '-us' if wt and not whole else ''
+        out.append(('uk-str' + us_, L('str', 'uk', s_(dialect_str(t, True, sep, pad, wt))), exp))
+        out.append(('us-str' + us_, L('str', 'us', s_(dialect_str(t, False, sep, pad, wt))), exp))
+    # the same spellings with white space around the text
+    sep, pad, wt = rng.choice(SEPS), rng.random() < 0.5, rng.random() < 0.3
+    exp = t if wt else day
+    out.append(('uk-str-ws', L('str', 'uk', s_(wrap_ws(rng, dialect_str(t, True, sep, pad, wt)))), exp))
+    out.append(('us-str-ws', L('str', 'us', s_(wrap_ws(rng, dialect_str(t, False, sep, pad, wt)))), exp))
+    out.append(('iso-ws', L('str', rng.choice(['uk', 'us']), s_(wrap_ws(rng, t.isoformat()))), t))
+    # ... and with blanks around the separators
+    wt = rng.random() < 0.3
+    exp = t if wt else day
+    out.append(('uk-str-padsep', L('str', 'uk', s_(padsep_str(rng, t, True, wt))), exp))
+    out.append(('us-str-padsep', L('str', 'us', s_(padsep_str(rng, t, False, wt))), exp))
+    out.append(('parts-hms-us', L('ymd', *['I:%d' % x for x in (t.year, t.month, t.day, t.hour, t.minute, t.second, t.microsecond)]), t))
     names = name_strs(t)
     for s in (names if full else rng.sample(names, 2)):
         out.append(('month-name', L('str', rng.choice(['uk', 'us']), s_(s)), day))
@@ -153,6 +197,14 @@ def generate(rng, tier):
                    expect='err ValueError' if t.day > 12 else None)
         yield dict(tag='us-str-read-as-uk' + ('-reject' if t.day > 12 else ''), lines=[L('str', 'uk', s_(dialect_str(t, False, sep, pad, False)))],
                    expect='err ValueError' if t.day > 12 else None)
+        if t.day > 12:
+            # ... with a time of day (to the microsecond) and / or white space around the text: still rejected
+            wt = rng.random() < 0.5
+            f = (lambda x: wrap_ws(rng, x)) if rng.random() < 0.6 else (lambda x: x)
+            yield dict(tag='uk-str-read-as-us-reject-ws', lines=[L('str', 'us', s_(f(dialect_str(t, True, sep, pad, wt))))], expect='err ValueError')
+            yield dict(tag='us-str-read-as-uk-reject-ws', lines=[L('str', 'uk', s_(f(dialect_str(t, False, sep, pad, wt))))], expect='err ValueError')
+            yield dict(tag='uk-str-read-as-us-reject-padsep', lines=[L('str', 'us', s_(padsep_str(rng, t, True, wt)))], expect='err ValueError')
+            yield dict(tag='us-str-read-as-uk-reject-padsep', lines=[L('str', 'uk', s_(padsep_str(rng, t, False, wt)))], expect='err ValueError')
     # ---- month / day overflow
     ms, ds = list(range(-36, 49)), list(range(-400, 401))
     for _ in range(1500 if quick else 60000):
@@ -171,12 +223,15 @@ def generate(rng, tier):
                 for d in ds:
                     yield dict(tag='overflow-all', lines=[L('ymd', 'I:%d' % y, 'I:%d' % m, 'I:%d' % d)])
     # ---- impossible dates and texts outside the claim
-    for s in ['31.04.2000', '29.02.1900', '30/02/2000', '2/30/2000', '14/13/2002', '13/14/2002', '2000-13-01', '2000-02-30', '20000230', '0/1/2000', '1/0/2000']:
+    for s in ['31.04.2000', '29.02.1900', '30/02/2000', '2/30/2000', '14/13/2002', '13/14/2002', '2000-13-01', '2000-02-30', '20000230', '0/1/2000', '1/0/2000',
+              # impossible times of day: dateutil raises (hour must be in 0..23, ...), never a shifted instant
+              '13/01/2000 25:00:00', '13/01/2000 24:00:00', '2/1/2000 10:61:00', '02.01.2000 10:59:60', '2000-01-13T10:61', '2000-01-13 24:00:00',
+              '2000-01-13T23:59:60.000001', '01/13/2000 23:60']:
         for dia in ('uk', 'us'):
             yield dict(tag='impossible-date', lines=[L('str', dia, s_(s))])
     for t in [D(2000, 1, 2, 3, 4, 5, 6), D(2000, 1, 13, 3, 4, 5, 6), D(2000, 12, 1, 23, 59, 59, 999999)]:
         for dia in ('uk', 'us'):
-            yield dict(tag='dialect-microseconds', lines=[L('str', dia, s_(dialect_str(t, dia == 'uk', '/', True, True) + '.%06d' % t.microsecond))])
+            yield dict(tag='dialect-microseconds', lines=[L('str', dia, s_(dialect_str(t, dia == 'uk', '/', True, True)))], expect=enc(t))
     for (y, m, d) in [(0, 1, 1), (10000, 1, 1), (9999, 12, 32), (9999, 13, 1), (1, 0, 1), (1, 1, 0), (5, 6, 2000), (31, 12, 1999), (31, 12, 1501)]:
         yield dict(tag='range-end', lines=[L('ymd', 'I:%d' % y, 'I:%d' % m, 'I:%d' % d)])
     if not quick:
@@ -241,7 +296,7 @@ def run_line(state, sx):
     return call(op, args, pyg_base.dt)
 
 
-OUTSIDE = ('impossible-date', 'dialect-microseconds', 'range-end', 'grid-num2dt')
+OUTSIDE = ('impossible-date', 'range-end', 'grid-num2dt')
 
 
 def compare(case, i, line, ir, mr):
@@ -311,11 +366,28 @@ def laws(rng, tier, ctx):
         uks, uss = dialect_str(t, True, sep, pad, True), dialect_str(t, False, sep, pad, True)
         checks.append(('law-uk', L('str', 'uk', s_(uks)), safe(dt, uks), t))
         checks.append(('law-us', L('str', 'us', s_(uss)), safe(dt, uss, dialect='us'), t))
+        # to the microsecond, date only, and with white space around the text
+        uku, usu = dialect_str(tu, True, sep, pad, True), dialect_str(tu, False, sep, pad, True)
+        checks.append(('law-uk-us', L('str', 'uk', s_(uku)), safe(dt, uku), tu))
+        checks.append(('law-us-us', L('str', 'us', s_(usu)), safe(dt, usu, dialect='us'), tu))
+        ukd, usd = wrap_ws(rng, dialect_str(t, True, sep, pad, False)), wrap_ws(rng, dialect_str(t, False, sep, pad, False))
+        checks.append(('law-uk-ws', L('str', 'uk', s_(ukd)), safe(dt, ukd), day))
+        checks.append(('law-us-ws', L('str', 'us', s_(usd)), safe(dt, usd, dialect='us'), day))
+        checks.append(('law-ymd-uk', L('ymd/str', 'uk', s_(uku)), safe(ymd, uku), day))
+        ukp, usp = padsep_str(rng, tu, True, True), padsep_str(rng, tu, False, True)
+        checks.append(('law-uk-padsep', L('str', 'uk', s_(ukp)), safe(dt, ukp), tu))
+        checks.append(('law-us-padsep', L('str', 'us', s_(usp)), safe(dt, usp, dialect='us'), tu))
         nm = rng.choice(name_strs(t))
         checks.append(('law-month-name', L('str', 'uk', s_(nm)), safe(dt, nm), day))
         if t.day > 12:
             checks.append(('law-uk-rejects-us', L('str', 'uk', s_(uss)), safe(dt, uss), 'raise ValueError'))
             checks.append(('law-us-rejects-uk', L('str', 'us', s_(uks)), safe(dt, uks, dialect='us'), 'raise ValueError'))
+            checks.append(('law-uk-rejects-us', L('str', 'uk', s_(usd)), safe(dt, usd), 'raise ValueError'))
+            checks.append(('law-us-rejects-uk', L('str', 'us', s_(ukd)), safe(dt, ukd, dialect='us'), 'raise ValueError'))
+            checks.append(('law-uk-rejects-us', L('str', 'uk', s_(usu)), safe(dt, usu), 'raise ValueError'))
+            checks.append(('law-us-rejects-uk', L('str', 'us', s_(uku)), safe(dt, uku, dialect='us'), 'raise ValueError'))
+            checks.append(('law-uk-rejects-us', L('str', 'uk', s_(usp)), safe(dt, usp), 'raise ValueError'))
+            checks.append(('law-us-rejects-uk', L('str', 'us', s_(ukp)), safe(dt, ukp, dialect='us'), 'raise ValueError'))
         for tag, ln, got, want in checks:
             count += 1
             ok = (got == want) if not isinstance(want, str) else (isinstance(got, str) and got in ('raise ValueError', 'raise ParserError'))
